@@ -53,13 +53,12 @@ def C04_dedup_off : Prop :=
 
 /-! ### proved building blocks of the composition
 
-  `C04_dedup_on_partial` and `C04_dedup_off` are stated above for arbitrary query ranges and are
-  checked differentially against the real querier on every run.  They are PROVED below for query
-  ranges that cover the series (`C04_dedup_on_partial_fullrange`, `C04_dedup_off_fullrange`).
-  For ranges that cut the series two things are missing: `boundedSeriesIterator` as a side of
-  the dedup node is not list-like there (its `Seek` does not enforce `maxt`, so `node_listLike`
-  does not apply directly — this is also why a sample beyond `maxt` can be returned), and the
-  stores' range filter drops chunks, so the first-fit argument needs the filtered cuts. -/
+  `C04_dedup_on_partial` and `C04_dedup_off` are stated above for ARBITRARY query ranges; both are
+  theorems (`C04_dedup_on_partial_holds`, `C04_dedup_off_holds` below), with the stores' range
+  filter in the model.  `boundedSeriesIterator` as a side of the dedup node is not list-like (its
+  `Seek` does not enforce `maxt`: a sample beyond `maxt` can be returned, and a target beyond
+  `maxt` answers `ValNone` without moving); it is list-like *up to `maxt`* (`Lemmas/TrackM.lean`),
+  which is what the statement — equality inside the range — needs. -/
 
 /-- `dedup.NewOverlapSplit` partitions the chunks into non-empty, time-ordered, non-overlapping rows -/
 theorem C04_overlapSplit_partition (cs : List RChunk) :
@@ -605,10 +604,353 @@ def partialWitness : RSeries :=
 example : selectDedup true 1 100 partialWitness =
     some (some [⟨10, 1⟩, ⟨20, 2⟩, ⟨30, 3⟩, ⟨40, 4⟩, ⟨50, 5⟩]) := by decide
 
+/-- … and with a query range that cuts the series: the stores send the chunks that overlap
+    `[15, 40]`, the answer is `S` inside it -/
+example : selectDedup true 15 40 partialWitness =
+    some (some [⟨20, 2⟩, ⟨30, 3⟩, ⟨40, 4⟩]) := by decide
+
+/-- … and here a sample beyond `maxt` leaks out (`[15, 35]`: 40 is returned although `maxt = 35`) -/
+example : selectDedup true 15 35 partialWitness =
+    some (some [⟨20, 2⟩, ⟨30, 3⟩, ⟨40, 4⟩]) := by decide
+
 example : DisjointCuts partialWitness := by
   intro r hr
   simp only [partialWitness, List.mem_cons, List.mem_nil_iff, or_false] at hr
   rcases hr with rfl | rfl <;> simp [RChunk.maxt, RChunk.mint]
+
+/-! ### the partial property for ANY query range -/
+
+/-- a cut that holds the head of `Q` and lies after `P` is a prefix of `Q` -/
+theorem prefix_of_head {Sq P Q d : List Sample} {g : Sample} {dr : List Sample} (hS : SSorted Sq)
+    (hPQ : Sq = P ++ Q) (hQ : Q.head? = some g) (hd : d = g :: dr) (hinf : d <:+: Sq)
+    (hafter : ∀ a ∈ P, a.t < g.t) : d <+: Q := by
+  have hSs : SSorted (P ++ Q) := by rw [← hPQ]; exact hS
+  have hdQ : d <:+: Q := infix_right hd (by rw [← hPQ]; exact hinf) hafter
+  obtain ⟨u, v, huv⟩ := hdQ
+  cases u with
+  | nil => exact ⟨v, by simpa using huv⟩
+  | cons y' u' =>
+    exfalso
+    have hyy : y' = g := by rw [← huv] at hQ; simp at hQ; exact hQ
+    have hQs : SSorted Q := List.Pairwise.sublist (List.sublist_append_right P _) hSs
+    rw [← huv] at hQs
+    have : SSorted ((y' :: u') ++ (d ++ v)) := by simpa using hQs
+    have := ssorted_append_lt this y' (by simp) g (List.mem_append_left _ (by rw [hd]; simp))
+    rw [hyy] at this
+    omega
+
+/-- **After every chunk end inside the range a chunk that the stores send begins** — the bounded
+    successor property on the sequence `S.filter (covered cs)` of samples the sent chunks hold. -/
+theorem succ_filtered {l : RSeries} {S : List Sample} (hS : SSorted S)
+    (hid : IdenticalReplicas S l) (hdj : DisjointCuts l) (qmint qmaxt : Int) (cs : List RChunk)
+    (hcsub : ∀ c ∈ cs, c ∈ (l.reps.flatMap (·.chunks)).filter (inRange qmint qmaxt))
+    (hcomp : ∀ d ∈ (l.reps.flatMap (·.chunks)).filter (inRange qmint qmaxt),
+      ∃ d' ∈ cs, d'.samples = d.samples) :
+    ∀ P Q g, S.filter (covered cs) = P ++ Q → Q.head? = some g → g.t ≤ qmaxt →
+      (P = [] ∨ ∃ c ∈ cs, c.samples <:+ P) → ∃ d ∈ cs, d.samples ≠ [] ∧ d.samples <+: Q := by
+  intro P Q g hPQ hQ hgM hbd
+  have hS' : SSorted (S.filter (covered cs)) := List.Pairwise.sublist List.filter_sublist hS
+  have hcut : ∀ c ∈ cs, c.samples ≠ [] ∧ c.samples <:+: S := by
+    intro c hc
+    obtain ⟨r, hr, hcr⟩ := List.mem_flatMap.mp (List.mem_filter.mp (hcsub c hc)).1
+    exact (hid.2 r hr).1 c hcr
+  have hcutS' : ∀ c ∈ cs, c.samples <:+: S.filter (covered cs) := fun c hc =>
+    infix_filter _ (hcut c hc).2 (fun x hx => covered_iff.mpr ⟨c, hc, hx⟩)
+  have hgQ : g ∈ Q := List.mem_of_mem_head? hQ
+  have hgS' : g ∈ S.filter (covered cs) := by rw [hPQ]; exact List.mem_append_right _ hgQ
+  have hgS : g ∈ S := (List.mem_filter.mp hgS').1
+  rcases hbd with hP | ⟨c, hc, hcP⟩
+  · -- at the very start: the chunk that covers the first covered sample starts there
+    obtain ⟨e, he, hge⟩ := covered_iff.mp (List.mem_filter.mp hgS').2
+    obtain ⟨z, er, hz⟩ : ∃ z er, e.samples = z :: er := by
+      cases hes : e.samples with
+      | nil => rw [hes] at hge; simp at hge
+      | cons z er => exact ⟨z, er, rfl⟩
+    -- z is covered, so it is in S' = Q, hence not before g; and it is the head of a cut holding g
+    have hzS' : z ∈ S.filter (covered cs) :=
+      (hcutS' e he).subset (by rw [hz]; simp)
+    have hzg : z = g := by
+      rw [hPQ, hP, List.nil_append] at hzS'
+      have hQs : SSorted Q := by rw [hPQ, hP] at hS'; simpa using hS'
+      -- g is the head of Q, z ∈ Q, z ≤ g (head of a sorted cut holding g)
+      have hzle : z.t ≤ g.t := (mem_chunk_bounds hS (hcut e he).2 hge).1 |> fun h => by
+        rw [(mint_of_cons hz).1] at h; exact h
+      cases Q with
+      | nil => simp at hQ
+      | cons q0 Q' =>
+        simp at hQ; subst hQ
+        rcases List.mem_cons.mp hzS' with h | h
+        · exact h
+        · have := (List.pairwise_cons.mp hQs).1 z h; omega
+    refine ⟨e, he, by rw [hz]; simp, ?_⟩
+    exact prefix_of_head hS' hPQ hQ (by rw [hz, hzg]) (hcutS' e he) (by intro a ha; rw [hP] at ha; simp at ha)
+  · -- after the chunk c: its replica's next chunk starts at the next sample, which is g
+    obtain ⟨hcall, hcin⟩ := List.mem_filter.mp (hcsub c hc)
+    obtain ⟨hcne, hcinf⟩ := hcut c hc
+    obtain ⟨cx, cr, hcx⟩ : ∃ cx cr, c.samples = cx :: cr := by
+      cases hcs : c.samples with
+      | nil => exact absurd hcs hcne
+      | cons cx cr => exact ⟨cx, cr, rfl⟩
+    have hlast : (cx :: cr).getLast? = some (cr.getLast?.getD cx) := getLast?_cons_getD cr cx
+    let w := cr.getLast?.getD cx
+    have hwc : w ∈ c.samples := by rw [hcx]; exact List.mem_of_getLast? hlast
+    have hwP : w ∈ P := hcP.subset hwc
+    have hcmax : c.maxt = w.t := by rw [(mint_of_cons hcx).2]; rfl
+    have hcsort : SSorted (cx :: cr) := by rw [← hcx]; exact List.Pairwise.sublist hcinf.sublist hS
+    have hSs' : SSorted (P ++ Q) := by rw [← hPQ]; exact hS'
+    have hPs : SSorted P := List.Pairwise.sublist (List.sublist_append_left P Q) hSs'
+    -- every sample of P is at or before w
+    have hPle : ∀ a ∈ P, a.t ≤ w.t := by
+      intro a ha
+      obtain ⟨p0, hp0⟩ := hcP
+      rw [← hp0, hcx] at ha hPs
+      rcases List.mem_append.mp ha with ha | ha
+      · have := ssorted_append_lt hPs a ha w (List.mem_of_getLast? hlast); omega
+      · exact le_lastOf (List.Pairwise.sublist (List.sublist_append_right p0 _) hPs) a ha
+    have hwg : w.t < g.t := ssorted_append_lt hSs' w hwP g hgQ
+    -- split S at w
+    have hAB : S = takeLe w.t S ++ dropLe w.t S := (takeLe_append_dropLe w.t S).symm
+    have hcA : c.samples <:+ takeLe w.t S := by
+      obtain ⟨s, t, hst⟩ := hcinf
+      have hSst : SSorted (s ++ c.samples ++ t) := by rw [hst]; exact hS
+      have : takeLe w.t S = s ++ c.samples := by
+        rw [← hst]
+        apply takeLe_append
+        · intro x hx
+          rcases List.mem_append.mp hx with hx | hx
+          · have := ssorted_append_lt (List.Pairwise.sublist (List.sublist_append_left _ t) hSst) x hx w hwc
+            omega
+          · rw [hcx] at hx; exact le_lastOf hcsort x hx
+        · intro x hx
+          exact ssorted_append_lt hSst w (List.mem_append_right s hwc) x (List.mem_of_mem_head? hx)
+      rw [this]; exact List.suffix_append s _
+    have hgB : g ∈ dropLe w.t S := by
+      rw [hAB] at hgS
+      rcases List.mem_append.mp hgS with h | h
+      · have := mem_takeLe_le' h; omega
+      · exact h
+    have hBne : dropLe w.t S ≠ [] := by intro he; rw [he] at hgB; simp at hgB
+    obtain ⟨d, hd, hdne, hdB⟩ := succ_of_replicas hS hid hdj (l.reps.flatMap (·.chunks))
+      (fun c h => h) (fun d h => ⟨d, h, rfl⟩) (takeLe w.t S) (dropLe w.t S) hAB hBne
+      (Or.inr ⟨c, hcall, hcA⟩)
+    obtain ⟨g0, dr, hg0⟩ : ∃ g0 dr, d.samples = g0 :: dr := by
+      cases hds : d.samples with
+      | nil => exact absurd hds hdne
+      | cons g0 dr => exact ⟨g0, dr, rfl⟩
+    have hdcut : d.samples ≠ [] ∧ d.samples <:+: S := by
+      obtain ⟨r, hr, hdr⟩ := List.mem_flatMap.mp hd
+      exact (hid.2 r hr).1 d hdr
+    have hg0B : g0 ∈ dropLe w.t S := hdB.subset (by rw [hg0]; simp)
+    have hg0w : w.t < g0.t := mem_dropLe_gt hS hg0B
+    have hBs : SSorted (dropLe w.t S) := List.Pairwise.sublist (List.dropWhile_sublist _) hS
+    -- g0 is the head of B, so g0 ≤ g
+    have hg0g : g0.t ≤ g.t := by
+      obtain ⟨t', ht'⟩ := hdB
+      rw [hg0] at ht'
+      rw [← ht'] at hgB hBs
+      simp only [List.cons_append] at hgB hBs
+      rcases List.mem_cons.mp hgB with h | h
+      · rw [h]; exact Int.le_refl _
+      · have := (List.pairwise_cons.mp hBs).1 g h; omega
+    -- d overlaps the range, so the stores send it
+    have hdin : d ∈ (l.reps.flatMap (·.chunks)).filter (inRange qmint qmaxt) := by
+      apply List.mem_filter.mpr
+      refine ⟨hd, ?_⟩
+      have hb0 := mem_chunk_bounds hS hdcut.2 (a := g0) (by rw [hg0]; simp)
+      have hdm := (mint_of_cons hg0).1
+      simp only [inRange, Bool.and_eq_true, decide_eq_true_eq] at hcin ⊢
+      omega
+    obtain ⟨d', hd', hds'⟩ := hcomp d hdin
+    -- g0 is covered, hence in S', after P, hence in Q; so g0 = g
+    have hg0S : g0 ∈ S := hdcut.2.subset (by rw [hg0]; simp)
+    have hg0S' : g0 ∈ S.filter (covered cs) :=
+      List.mem_filter.mpr ⟨hg0S, covered_iff.mpr ⟨d', hd', by rw [hds', hg0]; simp⟩⟩
+    have hg0Q : g0 ∈ Q := by
+      rw [hPQ] at hg0S'
+      rcases List.mem_append.mp hg0S' with h | h
+      · have := hPle g0 h; omega
+      · exact h
+    have hgg0 : g.t ≤ g0.t := by
+      have hQs : SSorted Q := List.Pairwise.sublist (List.sublist_append_right P Q) hSs'
+      cases Q with
+      | nil => simp at hQ
+      | cons q0 Q' =>
+        simp at hQ; subst hQ
+        rcases List.mem_cons.mp hg0Q with h | h
+        · rw [h]; exact Int.le_refl _
+        · have := (List.pairwise_cons.mp hQs).1 g0 h; omega
+    have heq : g0 = g := ssorted_eq_of_t hS hg0S hgS (by omega)
+    refine ⟨d', hd', by rw [hds']; exact hdne, ?_⟩
+    rw [hds']
+    exact prefix_of_head hS' hPQ hQ (by rw [hg0, heq]) (by rw [← hds']; exact hcutS' d' hd')
+      (fun a ha => by have := hPle a ha; omega)
+
+/-- **C04, dedup on, the part that holds — for ANY query range.**  `C04_dedup_on_partial` is a
+    theorem: identical replicas whose own chunks do not overlap in time (any cuts, any stores) and
+    any `[qmint, qmaxt]` — cutting the series, with the stores sending only the chunks that overlap
+    it — give, inside the range, exactly the samples of `S` inside the range. -/
+theorem C04_dedup_on_partial_holds : C04_dedup_on_partial := by
+  intro l S qmint qmaxt hS hpos hid hdj out hsel
+  have hq : ∀ x : Sample, inQuery qmint qmaxt x = (decide (qmint ≤ x.t) && decide (x.t ≤ qmaxt)) := fun _ => rfl
+  -- the chunks the stores send, and what the proxy makes of them
+  have hallcut : ∀ c ∈ l.reps.flatMap (·.chunks), c.samples ≠ [] ∧ c.samples <:+: S := by
+    intro c hc
+    obtain ⟨r, hr, hcr⟩ := List.mem_flatMap.mp hc
+    exact (hid.2 r hr).1 c hcr
+  generalize hcs : proxyChunks qmint qmaxt (l.reps.flatMap (·.chunks)) = cs at hsel
+  have hcsdef : cs = sortChunks (dedupContent ((l.reps.flatMap (·.chunks)).filter (inRange qmint qmaxt))) := by
+    rw [← hcs]; rfl
+  have hcsub : ∀ c ∈ cs, c ∈ (l.reps.flatMap (·.chunks)).filter (inRange qmint qmaxt) := by
+    intro c hc; rw [hcsdef] at hc; exact mem_dedupContent_sub (mem_sortChunks.mp hc)
+  have hcomp : ∀ d ∈ (l.reps.flatMap (·.chunks)).filter (inRange qmint qmaxt), ∃ d' ∈ cs, d'.samples = d.samples := by
+    intro d hd
+    obtain ⟨d', hd', hs'⟩ := dedupContent_complete hd
+    exact ⟨d', by rw [hcsdef]; exact mem_sortChunks.mpr hd', hs'⟩
+  have hcut : ∀ c ∈ cs, c.samples ≠ [] ∧ c.samples <:+: S := fun c hc =>
+    hallcut c (List.mem_filter.mp (hcsub c hc)).1
+  have hcsne : cs ≠ [] := by
+    intro he
+    rw [← hcs] at he
+    unfold selectDedup at hsel
+    rw [hcs] at hsel he
+    subst he
+    simp at hsel
+  have hsorted : cs.Pairwise (fun a b => a.mint ≤ b.mint) := by rw [hcsdef]; exact sortChunks_sorted _
+  -- every chunk that is sent starts at or before qmaxt; in particular minT ≤ qmaxt
+  have hmx : ∀ c ∈ cs, c.mint ≤ qmaxt := by
+    intro c hc
+    have := (List.mem_filter.mp (hcsub c hc)).2
+    simp only [inRange, Bool.and_eq_true, decide_eq_true_eq] at this
+    exact this.2
+  have hM : minT ≤ qmaxt := by
+    obtain ⟨c, hc⟩ : ∃ c, c ∈ cs := by
+      cases cs with
+      | nil => exact absurd rfl hcsne
+      | cons c _ => exact ⟨c, by simp⟩
+    obtain ⟨hne, hinf⟩ := hcut c hc
+    obtain ⟨a, ar, ha⟩ : ∃ a ar, c.samples = a :: ar := by
+      cases hcs2 : c.samples with
+      | nil => exact absurd hcs2 hne
+      | cons a ar => exact ⟨a, ar, rfl⟩
+    have h1 := (mint_of_cons ha).1
+    have h2 := hpos a (hinf.subset (by rw [ha]; simp))
+    have h3 := hmx c hc
+    simp only [minT]; omega
+  -- the querier side as a pure function
+  obtain ⟨extra, href, hex⟩ := C04_select_refines_anyrange l qmint qmaxt hM (by rw [hcs]; exact hcsne) (by
+    rw [hcs]
+    intro c hc
+    obtain ⟨hne, hinf⟩ := hcut c hc
+    exact ⟨⟨hne, fun x hx => hpos x (hinf.subset hx)⟩, List.Pairwise.sublist hinf.sublist hS⟩)
+  rw [hcs] at href
+  rw [href] at hsel
+  simp only [Option.some.injEq] at hsel
+  refine ⟨_, hsel.symm, ?_⟩
+  -- the samples beyond qmaxt are filtered out
+  have hextra : extra.filter (inQuery qmint qmaxt) = [] := by
+    apply List.filter_eq_nil_iff.mpr
+    intro x hx
+    have := hex x hx
+    simp only [inQuery, Bool.and_eq_true, decide_eq_true_eq]
+    omega
+  rw [List.filter_append, hextra, List.append_nil]
+  -- the covered sequence S' and the first-fit argument on it
+  have hS' : SSorted (S.filter (covered cs)) := List.Pairwise.sublist List.filter_sublist hS
+  have hcutS' : ∀ c ∈ cs, c.samples ≠ [] ∧ c.samples <:+: S.filter (covered cs) := fun c hc =>
+    ⟨(hcut c hc).1, infix_filter _ (hcut c hc).2 (fun x hx => covered_iff.mpr ⟨c, hc, hx⟩)⟩
+  obtain ⟨P, Q, hPQ, hrow0, hQ⟩ := firstFit_row0_bounded (S.filter (covered cs)) hS' cs qmaxt hmx hcutS'
+    hsorted (succ_filtered hS hid hdj qmint qmaxt cs hcsub hcomp) hcsne
+  -- in-range samples are covered
+  have hcov : ∀ x ∈ S, inQuery qmint qmaxt x = true → covered cs x = true := by
+    intro x hx hin
+    simp only [inQuery, Bool.and_eq_true, decide_eq_true_eq] at hin
+    obtain ⟨r, hr⟩ : ∃ r, r ∈ l.reps := by
+      cases hreps : l.reps with
+      | nil => exact absurd hreps hid.1
+      | cons r _ => exact ⟨r, by simp⟩
+    obtain ⟨c, hc, hxc⟩ := (hid.2 r hr).2 x hx
+    have hb := mem_chunk_bounds hS ((hid.2 r hr).1 c hc).2 hxc
+    have hcin : c ∈ (l.reps.flatMap (·.chunks)).filter (inRange qmint qmaxt) := by
+      apply List.mem_filter.mpr
+      refine ⟨List.mem_flatMap.mpr ⟨r, hr, hc⟩, ?_⟩
+      simp only [inRange, Bool.and_eq_true, decide_eq_true_eq]
+      omega
+    obtain ⟨c', hc', hs'⟩ := hcomp c hcin
+    exact covered_iff.mpr ⟨c', hc', by rw [hs']; exact hxc⟩
+  have hS'q : (S.filter (covered cs)).filter (inQuery qmint qmaxt) = S.filter (inQuery qmint qmaxt) := by
+    rw [List.filter_filter]
+    apply List.filter_congr
+    intro x hx
+    cases hin : inQuery qmint qmaxt x with
+    | false => rfl
+    | true => simp [hcov x hx hin]
+  have hPq : P.filter (inQuery qmint qmaxt) = S.filter (inQuery qmint qmaxt) := by
+    rw [← hS'q, hPQ, List.filter_append]
+    have : Q.filter (inQuery qmint qmaxt) = [] := by
+      apply List.filter_eq_nil_iff.mpr
+      intro x hx
+      have hQs : SSorted Q := List.Pairwise.sublist (List.sublist_append_right P Q) (by rw [← hPQ]; exact hS')
+      have hgt : qmaxt < x.t := by
+        cases Q with
+        | nil => simp at hx
+        | cons q0 Q' =>
+          have h0 := hQ q0 rfl
+          rcases List.mem_cons.mp hx with rfl | hx
+          · exact h0
+          · have := (List.pairwise_cons.mp hQs).1 x hx; omega
+      simp only [inQuery, Bool.and_eq_true, decide_eq_true_eq]
+      omega
+    rw [this, List.append_nil]
+  -- rows
+  obtain ⟨hrows, hperm⟩ := overlapSplit_partition cs
+  have hrowcut : ∀ row ∈ overlapSplit cs, ∀ c ∈ row, c.samples ≠ [] ∧ c.samples <:+: S.filter (covered cs) := by
+    intro row hr c hc
+    exact hcutS' c (hperm.subset (List.mem_flatten.mpr ⟨row, hr, hc⟩))
+  have hwin : ∀ row ∈ overlapSplit cs, rowWindow qmint qmaxt (row.map (·.samples)) =
+      (row.flatMap (·.samples)).filter (inQuery qmint qmaxt) := by
+    intro row hr
+    have hunion : unionFrom 0 (row.map (·.samples)) = row.flatMap (·.samples) := by
+      rw [List.flatMap_def]
+      apply unionFrom_disjoint
+      · intro c' hc'
+        obtain ⟨c, hc, rfl⟩ := List.mem_map.mp hc'
+        obtain ⟨hne, hinf⟩ := hrowcut row hr c hc
+        exact ⟨hne, List.Pairwise.sublist hinf.sublist hS'⟩
+      · exact rowDisjoint_of_rowOK hS' row (hrows row hr).1 (hrowcut row hr)
+      · intro c' hc' x hx
+        have hc'' : c' ∈ row.map (·.samples) := List.mem_of_mem_head? hc'
+        obtain ⟨c, hc, rfl⟩ := List.mem_map.mp hc''
+        have hxS : x ∈ S := (List.mem_filter.mp ((hrowcut row hr c hc).2.subset hx)).1
+        have := hpos x hxS
+        omega
+    have hsrow : SSorted (row.flatMap (·.samples)) :=
+      List.Pairwise.sublist (row_sublist row _ hS' (hrows row hr).1 (hrowcut row hr)) hS'
+    unfold rowWindow
+    rw [hunion, window_eq_filter hsrow]
+    rfl
+  have hSq : SSorted (S.filter (inQuery qmint qmaxt)) := List.Pairwise.sublist List.filter_sublist hS
+  cases hos : overlapSplit cs with
+  | nil =>
+    exfalso
+    rw [hos] at hperm
+    exact hcsne (List.Perm.eq_nil hperm.symm)
+  | cons row0 others =>
+    rw [hos] at hwin hrows hrowcut hrow0
+    simp only [headRow, List.head?_cons, Option.getD_some] at hrow0
+    simp only [List.map_cons, pmFoldL]
+    rw [hwin row0 (by simp), hrow0, hPq]
+    have hfold : (others.map fun row => rowWindow qmint qmaxt (row.map (·.samples))).foldl (pm2 minT)
+        (S.filter (inQuery qmint qmaxt)) = S.filter (inQuery qmint qmaxt) := by
+      apply foldl_pm2_sublist hSq
+      · intro x hx
+        have := hpos x (List.mem_filter.mp hx).1
+        simp only [minT]; omega
+      · intro q hqm
+        obtain ⟨row, hr, rfl⟩ := List.mem_map.mp hqm
+        rw [hwin row (by simp [hr]), ← hS'q]
+        exact (row_sublist row _ hS' (hrows row (by simp [hr])).1 (hrowcut row (by simp [hr]))).filter _
+    rw [hfold]
+    exact List.filter_eq_self.mpr (fun x hx => (List.mem_filter.mp hx).2)
 
 /-! ### F04: overlapping chunks inside a replica make the penalty window swallow samples -/
 
